@@ -273,6 +273,14 @@ var hostilePool = []string{"", "a b", "a;b", "x'y", "1x", `"open`, "a--b", "a/*"
 	"x UESCAPE '!'", "$1", "a\x00b", "\xff", "é'", "a\nb", "E'x'"}
 var typePool = []string{"int", "text", "integer[]", "varchar(255)", "jsonb", `"MyT"`, "numeric(10)", "text [ ]", "public.ty"}
 var hostileTypes = []string{"", "int; drop", "text)", "int::x", "varchar(1,2)", "int'", "a b", "1int"}
+
+// names / types that differ from a valid one only by surrounding white space or letter case: the boundary
+// between what validation accepts and what it rejects
+var nearIdents = []string{" a", "a ", "\ta", " t.a ", "a\n", "A", " \"Q\""}
+var nearTypes = []string{" int", "int ", "\n  varchar(10)", "text[] ", "INT", " numeric(10) ", "text\t"}
+
+// NearRate is the probability that a name / type is drawn from the near-valid pools
+var NearRate = 0.03
 var aliasPool = []string{"x", "y", "al", "t2", `"A"`, "sub"}
 var opPool = []string{"=", "<", ">", "<=", ">=", "<>", "+", "-", "*", "/", "%", "^", "||", "->", "->>", "#>", "@>", "<@", "~", "!~",
 	"AND", "OR", "LIKE", "IS", "&&", "&", "|", "<<", "IN", "NOT", "::", "."}
@@ -290,6 +298,10 @@ func (g *Gen) genString(hint string) string {
 	h := strings.ToLower(hint)
 	hostile := g.Rng.Float64() < g.Hostile
 	switch {
+	case (h == "s" || h == "n") && g.Rng.Float64() < NearRate:
+		return g.pick(nearIdents)
+	case h == "typ" && g.Rng.Float64() < NearRate:
+		return g.pick(nearTypes)
 	case h == "s" || h == "n":
 		if hostile {
 			return g.pick(hostilePool)
